@@ -94,8 +94,8 @@ class BiLinearForm(_Form):
                 # sum on gauss points
                 values_e = (values_e_pg * dX_e_pg).integrate()
 
-                # add data
-                data[:, i, j] = values_e
+                # add data (a product form such as `u * v` of scalar fields keeps a trailing unit axis)
+                data[:, i, j] = np.reshape(values_e, groupElem.Ne)
 
         return data
 
